@@ -18,12 +18,13 @@ type c18 struct{}
 func init() { register(c18{}) }
 
 func (c18) ID() string { return "C18" }
-func (c18) NumCases(tier string) int {
+func (c18) regularCases(tier string) int {
 	if tier == "thorough" {
-		return len(families) + 40000
+		return len(families) + 100000
 	}
 	return len(families) + 2000
 }
+func (p c18) NumCases(tier string) int { return p.regularCases(tier) + c18CLICases(tier) }
 func (c18) Rule() string {
 	return "case = one grammar built in-process with DebugFlags on and stdout captured; the 'Show State Closure' section is parsed (states, items with dot position, GOTO lines) and compared both with LR0Closure and with the shift/goto cells of GTable; the 'Show LookAhead SET' section is compared with the hook's (state, rule, lookahead) triples; DrawGrammar(GTable) is read through the gographviz API: node set, item labels per node, edge set vs shift/goto cells, reduce annotations vs negative cells, filled nodes vs accept cells, all by yaccgo's own numbering; a CLI leg compares 'yaccgo debug' and the DOT text printed by 'generate -g' with the dense table in the generated file; non-trivial = grammar with >= 4 states and at least one reduce annotation; distinct by grammar text"
 }
@@ -158,7 +159,10 @@ func dotName(n string) string {
 	return n
 }
 
-func (c18) Run(seed int64, tier string, idx int) (o Outcome) {
+func (p c18) Run(seed int64, tier string, idx int) (o Outcome) {
+	if reg := p.regularCases(tier); idx >= reg {
+		return c18CLIRun(seed, idx-reg)
+	}
 	r := caseRng(seed, "C18", idx)
 	var g *spec.Grammar
 	if idx >= len(families) && idx%3 == 0 {
